@@ -1,7 +1,10 @@
 import Verif.Properties.C03
+import Verif.Properties.C03Phases
 
 #print axioms C03.uniqify_fresh
 #print axioms C03.flag_iff_changed
 #print axioms C03.uniqify_terminates
 #print axioms C03.not_fresh_without_fold
 #print axioms C03.save_keeps_others
+#print axioms C03.nameInlinedSchemas_appends_fresh
+#print axioms C03.namePointers_appends_fresh
